@@ -1,9 +1,9 @@
 package main
 
 import (
+	"fmt"
 	"go/token"
 	"go/types"
-	"fmt"
 	"regexp"
 	"strings"
 
@@ -210,7 +210,7 @@ type createRow struct {
 	ctx       []string
 	ctxRaw    []string // allowed contexts given as finished regular expressions
 	need      []string // contexts (regular expressions) the creation must be under: it pays out only in that case
-	alts      []Alt // for branch-dependent values: each alternative with its context pattern
+	alts      []Alt    // for branch-dependent values: each alternative with its context pattern
 }
 
 func isCreator(fn *ssa.Function, immature bool) bool {
